@@ -222,13 +222,19 @@ fn densify_ids(u: &mut Universe) {
     }
 }
 
-/// All single-step simplifications of a case, most aggressive first.
-fn candidates_for(sc: &StructCase) -> Vec<StructCase> {
-    let mut out = vec![];
+/// Visits the single-step simplifications of a case, most aggressive first, until `visit`
+/// accepts one (returns true). Candidates are built one at a time: a case with thousands of
+/// candidates has tens of thousands of edits, and materialising them all for every round made
+/// minimisation of the huge-package stages take hours.
+fn candidates_for(sc: &StructCase, visit: &mut dyn FnMut(StructCase) -> bool) -> bool {
+    let mut done = false;
     let mut push = |f: &dyn Fn(&mut StructCase) -> bool| {
+        if done {
+            return;
+        }
         let mut c = sc.clone();
         if f(&mut c) && c != *sc {
-            out.push(c);
+            done = visit(c);
         }
     };
     // runtime -> sync, extra -> shorter
@@ -285,6 +291,44 @@ fn candidates_for(sc: &StructCase) -> Vec<StructCase> {
             }
             true
         });
+    }
+    // big packages: remove blocks of candidates (halves, quarters, ...) before single ones
+    for pi in 0..sc.u.packages.len() {
+        let n = sc.u.packages[pi].cands.len();
+        let mut chunk = n / 2;
+        while chunk >= 4 {
+            let mut start = 0;
+            while start < n {
+                let end = (start + chunk).min(n);
+                push(&|c| {
+                    for k in (start..end).rev() {
+                        let StructCase { u, problem, more, .. } = c;
+                        let mut ps: Vec<&mut Problem> = std::iter::once(problem).chain(more.iter_mut()).collect();
+                        remove_cand(u, &mut ps, pi, k);
+                    }
+                    true
+                });
+                start = end;
+            }
+            chunk /= 2;
+        }
+    }
+    // many packages: remove blocks of requirements of the problem
+    {
+        let n = sc.problem.reqs.len();
+        let mut chunk = n / 2;
+        while chunk >= 4 {
+            let mut start = 0;
+            while start < n {
+                let end = (start + chunk).min(n);
+                push(&|c| {
+                    c.problem.reqs.drain(start..end);
+                    true
+                });
+                start = end;
+            }
+            chunk /= 2;
+        }
     }
     for pi in 0..sc.u.packages.len() {
         let pk = &sc.u.packages[pi];
@@ -420,29 +464,42 @@ fn candidates_for(sc: &StructCase) -> Vec<StructCase> {
         densify_ids(&mut c.u);
         true
     });
-    out
+    done
 }
 
+/// Applies accepted simplifications until none is left, the evaluation budget is used up, or
+/// the work budget (candidates tried x size of the case: deterministic, unlike a clock) is.
 pub fn minimize(start: StructCase, fails: &dyn Fn(&StructCase) -> bool, budget: usize) -> StructCase {
     let mut best = start;
     let mut evals = 0usize;
-    'outer: loop {
-        for cand in candidates_for(&best) {
-            if evals >= budget {
-                break 'outer;
+    let mut work = 0u64;
+    const WORK_BUDGET: u64 = 400_000_000;
+    loop {
+        let size = (best.u.n_solvables() + best.u.vsets.len() + best.u.packages.len() + 16) as u64;
+        let mut next: Option<StructCase> = None;
+        let mut exhausted = false;
+        candidates_for(&best, &mut |cand: StructCase| {
+            if evals >= budget || work >= WORK_BUDGET {
+                exhausted = true;
+                return true;
             }
+            work += size;
             if check_well_formed(&cand.u, &cand.problem).is_err()
                 || cand.more.iter().any(|p| check_well_formed(&cand.u, p).is_err())
             {
-                continue;
+                return false;
             }
             evals += 1;
             if fails(&cand) {
-                best = cand;
-                continue 'outer;
+                next = Some(cand);
+                return true;
             }
+            false
+        });
+        match next {
+            Some(c) if !exhausted => best = c,
+            _ => break,
         }
-        break;
     }
     best
 }
